@@ -15,7 +15,7 @@ VARIABLES tid, l, vs, ords, sym, stats
 vars == <<tid, l, vs, ords, sym, stats>>
 Ev(t) == Traces[t].ev
 NoDecl == [buy |-> <<>>, sell |-> <<>>, sl |-> <<>>, tp |-> <<>>]
-Sym0 == [decl |-> NoDecl, inOpen |-> FALSE, flipped |-> "", rest |-> {}, exec |-> <<>>]
+Sym0 == [decl |-> NoDecl, inOpen |-> FALSE, flipped |-> "", rest |-> {}, exec |-> <<>>, execE |-> <<>>]
 
 Init == /\ tid \in 1..Len(Traces) /\ l = 1 /\ vs = <<>> /\ ords = <<>>
         /\ sym = [s \in 1..Traces[tid].hdr.nsym |-> Sym0]
@@ -81,16 +81,29 @@ ExitClauses(e, S, via, k, rows, has, at) ==
      ELSE If(InjectiveMatch(a, rows, RowOrReplacement), "stale-exit:" \o k \o at \o Tag(S))
           \o If(\A i \in DOMAIN a : a[i].ro /\ a[i].side = ClosingSide(e.q), "active-exit-side:" \o k \o at \o Tag(S))
           \o If(InjectiveMatch(rows, pool, RowCovered), "declared-row-without-order:" \o k \o at \o Tag(S))
+\* entries: "an order of exactly that quantity and price" also holds for what is RESTING - the active entry orders of a side
+\* map injectively onto the rows of the latest self.buy / self.sell (a market entry carries the price of the moment), and every
+\* declared row has an order that is active or was filled in this cycle (re-declared scale-in rows of an open position included)
+IsEntry(o) == o.via = "none" /\ ~o.ro
+EntrySideClauses(e, S, side, rows, at) ==
+  LET a == SelectSeq(e.act, LAMBDA o : IsEntry(o) /\ o.side = side)
+      pool == a \o SelectSeq(S.execE, LAMBDA o : o.side = side)
+  IN If(InjectiveMatch(a, rows, RowOrReplacement), "stale-entry:" \o side \o at \o Tag(S))
+     \o If(rows = <<>> \/ (e.q > 0 /\ side = "sell") \/ (e.q < 0 /\ side = "buy") \/ InjectiveMatch(rows, pool, RowCovered),
+           "declared-entry-row-without-order:" \o side \o at \o Tag(S))
+EntryClauses(e, S, at) == EntrySideClauses(e, S, "buy", e.buy, at) \o EntrySideClauses(e, S, "sell", e.sell, at)
 \* the same correspondence when the next step begins (before()): the hooks of the fills in between have all run their detection
 BeforeClauses(e, S) ==
-  IF e.q = 0 THEN FlatClauses(e.act)
-  ELSE ExitClauses(e, S, "stop-loss", "sl", e.sl, e.hl, ":at-before") \o ExitClauses(e, S, "take-profit", "tp", e.tp, e.ht, ":at-before")
+  EntryClauses(e, S, ":at-before")
+  \o (IF e.q = 0 THEN FlatClauses(e.act)
+      ELSE ExitClauses(e, S, "stop-loss", "sl", e.sl, e.hl, ":at-before") \o ExitClauses(e, S, "take-profit", "tp", e.tp, e.ht, ":at-before"))
 
 AfterClauses(e, S) ==
   (IF S.rest = {} THEN <<>>
    ELSE LET c == {o \in S.rest : ords[o].st = "canceled"}
         IN If(IF e.sce THEN c = S.rest ELSE c = {},
               IF e.sce THEN "entry-not-cancelled-though-should_cancel_entry" ELSE "entry-cancelled-though-not-should_cancel_entry"))
+  \o EntryClauses(e, S, "")
   \o (IF e.q = 0 THEN FlatClauses(e.act)
       ELSE ExitClauses(e, S, "stop-loss", "sl", e.sl, e.hl, "") \o ExitClauses(e, S, "take-profit", "tp", e.tp, e.ht, ""))
 
@@ -121,13 +134,15 @@ Step ==
             /\ ords' = [ords EXCEPT ![e.o].st = "executed"]
             /\ sym' = [sym EXCEPT ![e.s].inOpen = (e.qb = 0 \/ Effect(e.qb, e.qa) = "flip"),
                                   ![e.s].flipped = IF @ = "" /\ Effect(e.qb, e.qa) = "flip" THEN FlipTag(ords[e.o]) ELSE @,
-                                  ![e.s].exec = IF ords[e.o].via # "none" THEN Append(@, ords[e.o]) ELSE @]
+                                  ![e.s].exec = IF ords[e.o].via # "none" THEN Append(@, ords[e.o]) ELSE @,
+                                  ![e.s].execE = IF ords[e.o].via = "none" /\ ~ords[e.o].ro THEN Append(@, ords[e.o]) ELSE @]
             /\ UNCHANGED <<vs, stats>>
        [] e.k = "fille" ->
             /\ vs' = AddAll(vs, l, IF e.qa = 0 THEN FlatClauses(e.act) ELSE <<>>)
             /\ sym' = [sym EXCEPT ![e.s].inOpen = FALSE,
                                   ![e.s].flipped = IF e.qa = 0 THEN "" ELSE @,
-                                  ![e.s].exec = IF e.qa = 0 THEN <<>> ELSE @]
+                                  ![e.s].exec = IF e.qa = 0 THEN <<>> ELSE @,
+                                  ![e.s].execE = IF e.qa = 0 THEN <<>> ELSE @]
             /\ UNCHANGED <<ords, stats>>
        [] e.k = "after" ->
             /\ vs' = AddAll(vs, l, AfterClauses(e, sym[e.s]))
